@@ -225,15 +225,45 @@ func C18Perturb(y, spin, rep int) {
 type C18StartBarrier struct {
 	n       int32
 	arrived int32
+	abort   *int32 // shared by the barriers of one run: set when a participant died
 }
 
-func C18NewBarrier(n int) *C18StartBarrier { return &C18StartBarrier{n: int32(n)} }
+func C18NewBarrier(n int) *C18StartBarrier { return &C18StartBarrier{n: int32(n), abort: new(int32)} }
+
+// Abort releases everybody waiting (now or later) on any barrier created by
+// the same C18RoundBarriers call: used when a worker goroutine panicked.
+func (b *C18StartBarrier) Abort() { atomic.StoreInt32(b.abort, 1) }
 
 func (b *C18StartBarrier) Wait() {
 	atomic.AddInt32(&b.arrived, 1)
-	for i := 0; atomic.LoadInt32(&b.arrived) < b.n; i++ {
+	for i := 0; atomic.LoadInt32(&b.arrived) < b.n && atomic.LoadInt32(b.abort) == 0; i++ {
 		if i&15 == 15 || runtime.GOMAXPROCS(0) == 1 {
 			runtime.Gosched()
 		}
 	}
+}
+
+// C18RoundBarriers returns one barrier per op index for lock-step cases: the
+// goroutines that still have an op at index i rendezvous before it, so that
+// their i-th calls enter the library at (nearly) the same instant.  lens are
+// the op counts per goroutine.
+func C18RoundBarriers(lens []int) []*C18StartBarrier {
+	max := 0
+	for _, n := range lens {
+		if n > max {
+			max = n
+		}
+	}
+	out := make([]*C18StartBarrier, max)
+	abort := new(int32)
+	for i := range out {
+		k := 0
+		for _, n := range lens {
+			if n > i {
+				k++
+			}
+		}
+		out[i] = &C18StartBarrier{n: int32(k), abort: abort}
+	}
+	return out
 }
